@@ -152,3 +152,21 @@ pub fn sample_index_new_contract<T: Iterator<Item = usize> + ExactSizeIterator>(
     assert!(first == 0, "SampleIndex::new(): The initial value must be 0");
     simple_sds::rl_vector::index::SampleIndex::verif_widest(n)
 }
+
+// C11: conversions size the target from `count_ones()` of the source. For a BitVector source that
+// is the popcount of symbolic words, i.e. a symbolic allocation size in the target's builder.
+// The instance fixes the number of set bits: the stub returns that constant and cuts every
+// path on which the real popcount differs (those bit patterns belong to other instances).
+const ONES_TAG: usize = 0x0E5_0000;
+static mut FIXED_ONES: usize = ONES_TAG;
+pub fn set_fixed_ones(m: usize) { unsafe { FIXED_ONES = ONES_TAG + m; } }
+pub fn rawvec_count_ones_fixed(v: &RawVector) -> usize {
+    let words: &[u64] = v.as_ref();
+    let mut real = 0usize; let mut k = 0;
+    while k < 4 { if k < words.len() { real += words[k].count_ones() as usize; } k += 1; }
+    assert!(words.len() <= 4, "stub: count_ones_fixed covers at most 256 bits");
+    if words.len() == 0 { return 0; }   // e.g. the placeholder BitVector inside a SparseBuilder
+    let m = unsafe { FIXED_ONES } - ONES_TAG;
+    kani::assume(real == m);
+    m
+}
